@@ -106,6 +106,12 @@ def do_replay(path, quiet=False):
             from . import vos
             vos.reset()
             real, rtext = spec.real_replay(body["harness"], body["args"], failure)
+            if real is False:
+                # real threads/processes/sockets: one more attempt before the counterexample is called a model error (a loaded
+                # machine can make the forced schedule miss its window)
+                vos.reset()
+                real, rtext = spec.real_replay(body["harness"], body["args"], failure)
+                rtext += " (second attempt)"
         except BaseException as e:  # noqa
             real, rtext = None, "real-OS replay crashed: %r" % (e,)
         print("REAL-OS-REPLAY: %s %s" % ({True: "reproduced", False: "NOT reproduced", None: "not available"}[real], rtext))
